@@ -279,10 +279,34 @@ Proof.
   intros s W N F. unfold start_check_limit_handling, rcfg_or_assert. dauto.
 Qed.
 
+(* the loop over the tracked ranges (F9 repair): every iteration changes the tracker only, and raises E_VALUE at most *)
+Definition lshQ (s s' : dst) : Prop := dest_wf s' /\ d_state s' = d_state s /\ d_step s' = d_step s.
+
+Lemma remove_covered_ok : forall o e sg s, dest_wf s ->
+  postx (fun _ s' => lshQ s s') (fun x s' => lshQ s s' /\ nie x) (remove_covered o e sg s).
+Proof.
+  intros o e sg s W. unfold remove_covered, lshQ. dauto.
+Qed.
+
+Lemma remove_covered_fold_ok : forall o e tr (m : D unit) s,
+  postx (fun _ s' => lshQ s s') (fun x s' => lshQ s s' /\ nie x) (m s) ->
+  postx (fun _ s' => lshQ s s') (fun x s' => lshQ s s' /\ nie x)
+        (fold_left (fun m sg => m ;;; remove_covered o e sg) tr m s).
+Proof.
+  intros o e tr. induction tr as [|sg tr IH]; intros m s H; cbn [fold_left]; [exact H|].
+  apply IH. eapply postx_bind; [exact H | intros x s' X; exact X |]. cbv beta.
+  intros u s1 (W1 & N1 & S1).
+  eapply postx_weaken; [apply remove_covered_ok; exact W1 | |]; unfold lshQ; cbv beta.
+  - intros a s' (W2 & N2 & S2). rewrite N2, S2. auto.
+  - intros x s' [(W2 & N2 & S2) X]. rewrite N2, S2. auto.
+Qed.
+
 Lemma lsh_ok : forall o l s, dest_wf s -> d_state s <> ST_IDLE ->
   postx (fun _ s' => dest_wf s' /\ d_state s' = d_state s /\ d_step s' = d_step s) (EX s) (lost_segment_handling o l s).
 Proof.
   intros o l s W N. unfold lost_segment_handling, tracker_add, rcfg_or_assert, add_packet. dauto.
+  all: (eapply postx_weaken; [apply remove_covered_fold_ok; mfin; unfold lshQ; dsolve | |]; unfold lshQ; cbv beta;
+        [intros a s' H; dsolve | intros e s' H; dsolve]).
 Qed.
 
 (* ---- part D3 *)
@@ -342,9 +366,21 @@ Proof.
     + destruct (negb (timed_out (e_now (d_env s)) tm)); mrun; cbv beta iota; [mfin; dsolve|].
       mrun. cbn [negb andb].
       destruct (p_nak_counter (d_p s) + 1 =? r_nak_limit r).
-      * dcall declare_fault_ok; [dsolve | dsolve | intros e s' H; dsolve |].
-        intros fh s' H. dauto.
-      * mrun. destruct (max_seg_reqs (r_max_packet r) (p_conf (d_p s))) as [maxn|]; [|mfin; dsolve].
+      * mrun. dcall declare_fault_ok; [dsolve | dsolve | intros e s' H; dsolve |].
+        intros fh s1 H1. mrun. destruct (negb (fh =? FH_IGNORE)); cbv beta iota; [mfin; dsolve|].
+        (* F22 repair: with the handler IGNORE the NAK sequence is issued again from the state the fault declaration left,
+           in which the procedure timer still exists *)
+        assert (Ht1 : p_proc_timer (d_p s1) = Some tm) by (destruct H1 as (_ & K1 & _); unfold dkeep in K1; hsplit; congruence).
+        mrun. destruct (max_seg_reqs (r_max_packet r) (p_conf (d_p s1))) as [maxn|]; [|mfin; dsolve].
+        mrun.
+        destruct (if p_md_missing (d_p s1) then _ else _) as [pre acc0].
+        destruct (nak_split _ _ _ _ _) as [ps rest].
+        dmid; [intros e s' [_ []]|].
+        intros u s' H. mrun.
+        assert (Hp : p_proc_timer (d_p s') = Some tm) by (unfold dsv in H; injection H as _ _ Hp; rewrite Hp; exact Ht1).
+        rewrite Hp. destruct tm as [t0 tmo]. mfin. dsolve.
+      * mrun. cbv beta iota. mrun.
+        destruct (max_seg_reqs (r_max_packet r) (p_conf (d_p s))) as [maxn|]; [|mfin; dsolve].
         mrun.
         destruct (if p_md_missing (d_p s) then _ else _) as [pre acc0].
         destruct (nak_split _ _ _ _ _) as [ps rest].
@@ -352,7 +388,7 @@ Proof.
         intros u s' H. mrun.
         assert (Hp : p_proc_timer (d_p s') = Some tm) by (unfold dsv in H; injection H as _ _ Hp; rewrite Hp; exact Ht).
         rewrite Hp. destruct tm as [t0 tmo]. mfin. dsolve.
-    + cbv beta iota. mrun. cbn [negb andb]. mrun.
+    + cbv beta iota. mrun. cbn [negb andb]. mrun. cbv beta iota. mrun.
       destruct (max_seg_reqs (r_max_packet r) _) as [maxn|]; [|mfin; dsolve].
       mrun.
       destruct (if p_md_missing _ then _ else _) as [pre acc0].
@@ -956,7 +992,8 @@ Qed.
 Lemma handle_eof_sent_ok : forall b s, source_wf s -> q_tid (s_p s) <> None -> q_cond_eof (s_p s) <> None ->
   postx (fun _ s' => source_wf s') SNoE (handle_eof_sent b s).
 Proof.
-  intros b s W T C. unfold handle_eof_sent, start_positive_ack_procedure_s, srcfg_or_assert. sauto.
+  (* F21 repair: the cancelled unacknowledged transaction ends through notice_of_completion_s; q_cond_eof is set (C) *)
+  intros b s W T C. unfold handle_eof_sent, start_positive_ack_procedure_s, srcfg_or_assert, notice_of_completion_s, stid_or_assert. sauto.
 Qed.
 
 Lemma notice_of_cancellation_s_ok : forall c s, source_wf s -> q_tid (s_p s) <> None ->
@@ -1202,9 +1239,11 @@ Proof.
   intros pkt s W S NF. unfold handle_waiting_for_ack.
   scall handle_retransmission_u; [exact W | unfold running; ssolve | ssolve | intros e s' H; exact H |].
   intros rt s1 H1. destruct rt; [sfin; exact H1|]. destruct H1 as [-> Hn].
-  destruct pkt as [[ | | | | | | | ]|]; try discriminate Hn; try contradiction;
+  destruct pkt as [[ | | |h cond deliv fstatus fl|h acked cond st| | | ]|]; try discriminate Hn; try contradiction;
     try (stail hpap_s_ok; [exact W | exact S | intros; assumption | intros e s' H; apply SE0_SEU; exact H]).
-  destruct (acked =? D_EOF); [rewrite when_true | rewrite when_false]; sfin; ssolve.
+  - (* Finished PDU: on to WAITING_FOR_FINISHED, which asks nothing of the parameter block (F30 repair) *)
+    sfin. ssolve.
+  - destruct (acked =? D_EOF); [rewrite when_true | rewrite when_false]; sfin; ssolve.
 Qed.
 
 Lemma handle_wait_for_finish_ok : forall pkt s, source_wf s -> s_step s = SS_WAITING_FOR_FINISHED ->
